@@ -179,11 +179,12 @@ Proof.
       destruct (nth_error (i_ch p) i) as [c|] eqn:N; [|apply keeps_refl; exact H]. apply (INC i c N).
     + destruct (is_dash s).
       { cbn [snd]. split; [apply id_add_item|]. split; [apply par_add_item | apply pok_add_item; assumption]. }
-      destruct ((sw 32 (atoi s) >? Z.of_nat (length (i_ch p))) || (sw 32 (atoi s) <? 0)); [apply keeps_refl; exact H|].
-      destruct (sw 32 (atoi s) <? Z.of_nat (length (i_ch p))); cbn [snd].
+      destruct (arr_index s) as [idx|]; [|apply keeps_refl; exact H].
+      destruct ((idx >? Z.of_nat (length (i_ch p))) || (idx <? 0)); [apply keeps_refl; exact H|].
+      destruct (idx <? Z.of_nat (length (i_ch p))); cbn [snd].
       * split; [apply id_set_ch|]. split; [apply par_set_ch|]. rewrite pok_set_ch, forallb_app. rewrite pok_unfold in H.
         rewrite (forallb_firstn _ _ _ _ H). cbn [forallb andb].
-        rewrite (kid_ok_adopt (i_id p) (iset_kl v (sw 32 (atoi s)))) by (rewrite pok_set_kl; exact V). cbn [andb].
+        rewrite (kid_ok_adopt (i_id p) (iset_kl v idx)) by (rewrite pok_set_kl; exact V). cbn [andb].
         rewrite (forallb_map_same _ iinc_kl _ (kid_ok_inc (i_id p))). apply (forallb_skipn _ _ _ _ H).
       * split; [apply id_add_item|]. split; [apply par_add_item|]. apply pok_add_item; [exact H|]. rewrite pok_set_kl. exact V.
 Qed.
